@@ -591,10 +591,11 @@ Proof.
   nia.
 Qed.
 
+Lemma NUM15_eq : NUM15 = NUM_LIMIT. Proof. reflexivity. Qed.
 Lemma hr_ok2b_sound l : Forall hr_ok l -> forallb hr_ok2b l = true -> Forall hr_ok2 l.
 Proof.
   intros Hok H. rewrite forallb_forall in H. rewrite Forall_forall in *. intros r Hr. split; auto.
-  specialize (H r Hr). unfold hr_ok2b, NUM15 in H. unfold NUM_LIMIT. lia.
+  specialize (H r Hr). unfold hr_ok2b in H. rewrite NUM15_eq in H. apply N.ltb_lt in H. exact H.
 Qed.
 
 Lemma name_domb_sound nm : name_domb nm = true -> name_dom nm.
@@ -646,7 +647,7 @@ Qed.
 (* ====================================================================== *)
 
 Lemma find_sound_nth l name l' k :
-  Forall hr_ok l -> (Z.of_nat (length (expand l)) <= 2147483647)%Z -> find l name = (l', k) ->
+  Forall hr_ok l -> (Z.of_nat (length (expand l)) <= 2147483647)%Z -> HLEdit.find l name = (l', k) ->
   expand l' = expand l /\ ((0 <= k)%Z -> nth_error (expand l) (Z.to_nat k) = Some name).
 Proof.
   intros Hok Hb H. destruct (find_sound _ _ _ _ Hok Hb H) as [Hl Hr]. split; [apply leq_expand; auto|].
